@@ -36,7 +36,7 @@ func (ref Reference) HoverAtPos(ctx context.Context, pos hcl.Pos) *lang.HoverDat
 
 		// TODO: Reflect additional found targets here?
 
-		content, err := hoverContentForReferenceTarget(ctx, targets[0], pos)
+		content, err := hoverContentForReferenceTarget(ctx, targets[0], eType.Range().Filename, pos)
 		if err == nil {
 			return &lang.HoverData{
 				Content: lang.Markdown(content),
